@@ -95,7 +95,7 @@ fn quiescence_search(game: &mut Game, mut alpha: Score, beta: Score, real_depth:
         }
 
         game.push(_move);
-        let score = -quiescence_search(game, -beta, -alpha, real_depth + 1);
+        let score = -quiescence_search(game, -beta, -alpha, real_depth.saturating_add(1));
         game.pop(_move);
 
         if score > alpha {
@@ -288,7 +288,7 @@ fn get_best_move_score(
             if let Some(index) = _move.index_history() {
                 let bonus = (remaining_depth as f64).powf(3.0);
                 let real_bonus = bonus * (1.0 - history[index] as f64 / 10000.0);
-                history[index] += real_bonus as u16;
+                history[index] = history[index].saturating_add(real_bonus as u16);
             }
             break;
         }
@@ -339,7 +339,8 @@ pub fn get_best_move_entry(
         return Some((moves.first().copied(), 0, true));
     }
 
-    let mut killer_moves = [None; 32];
+    // One slot for every possible value of real_depth
+    let mut killer_moves = [None; 256];
     let mut best_move = None;
     let mut best_score = Score::MIN + 1;
 
@@ -465,7 +466,7 @@ pub fn get_best_move_until_stop(
         })
         .unwrap_or(1);
 
-    for depth in starting_depth.. {
+    for depth in starting_depth..=u8::MAX {
         let Some((best_move, best_score, is_only_move)) =
             get_best_move_entry(game.clone(), continue_running, depth, table, &mut history)
         else {
@@ -506,5 +507,6 @@ pub fn get_best_move_until_stop(
         }
     }
 
-    unreachable!()
+    // Every depth a u8 can hold has been searched
+    found_move
 }
